@@ -28,6 +28,7 @@ def run(rep):
     rep.guard(c09.f9, rep, w, 'C15')   # ... and never as new
     import c05
     rep.guard(c05.e7, rep, w)     # a failed assignment to an undeclared global defines nothing for later snippets
+    rep.guard(c05.e12, rep, w)    # compiled code outlives the run that compiled it: a chunk (or any shared immutable value) keeps no reader-updated state, so what a later run is told does not depend on the queries of an earlier one
     rep.guard(c14.m5, rep, w)     # a failed run must not drop modules from the registry: functions they handed out keep pointing at them
 
 
